@@ -647,6 +647,7 @@ func checkC05(c *Ctx) {
 	r.Rule("C05.b", "map ranges are exactly dict.Keys/Values/KVs", 3)
 	r.Rule("C05.c", "bags (map-enumeration-order slices) reach only order-insensitive consumers", 5)
 	r.Rule("C05.pins", "closed forms the commutative-action table relies on", 8)
+	r.Rule("C05.d", "the diagnostic sink is closed: the recovered panic value (whose wording may depend on enumeration order) reaches only console printing, and output files have the single write path transpileOne -> sys.WriteFile", 3)
 
 	f := c.LoadFC("fc")
 	if f == nil {
@@ -704,6 +705,106 @@ func checkC05(c *Ctx) {
 		nEff++
 	}
 	r.Unit("effectful_functions", nEff)
+
+	// (d) the exemption for diagnostics in (c) is sound only if diagnostic text cannot come back into a file or a decision
+	checkFileAPIs(c, "C05.d", f)
+	checkDiagnosticSink(c, f)
+}
+
+// console printers: the only consumers allowed for a value derived from recover()
+var consolePrinters = map[string]bool{"fmt.Printf": true, "fmt.Println": true, "fmt.Print": true, "os.Exit": false}
+
+// pure formatters: their result carries the taint to the enclosing consumer
+var diagFormatters = map[string]bool{"fmt.Sprintf": true, "fmt.Sprint": true, "fmt.Sprintln": true, "fmt.Errorf": true}
+
+// checkDiagnosticSink: in every function that calls recover(), the recovered value is compared with nil,
+// formatted, or printed to the console — nothing else (C05.d).
+func checkDiagnosticSink(c *Ctx, f *FC) {
+	r := c.R
+	n := 0
+	for _, fn := range f.Prog.Funcs {
+		calls := false
+		ir.WalkFunc(fn, func(t ir.Term) bool {
+			if b, ok := t.(*ir.Builtin); ok && b.Name == "recover" {
+				calls = true
+			}
+			return true
+		})
+		if !calls {
+			continue
+		}
+		n++
+		pos := c.Pos(f.M.Fset, fn.Decl.Pos())
+		nf := f.N.Func(fn)
+		tainted := func(t ir.Term) bool {
+			found := false
+			ir.Walk(t, func(x ir.Term) bool {
+				if b, ok := x.(*ir.Builtin); ok && b.Name == "recover" {
+					found = true
+				}
+				return !found
+			})
+			return found
+		}
+		var bad []string
+		var visit func(t ir.Term)
+		visit = func(t ir.Term) {
+			ir.Walk(t, func(x ir.Term) bool {
+				app, ok := x.(*ir.App)
+				if !ok || x == t {
+					return true
+				}
+				any := false
+				for _, a := range app.Args {
+					if tainted(a) {
+						any = true
+					}
+				}
+				if !any {
+					return true
+				}
+				switch fun := app.Fun.(type) {
+				case *ir.Builtin:
+					return true // recover() itself, comparisons, conversions: taint continues upward
+				case *ir.FuncRef:
+					k := ir.ShortKey(fun.Key)
+					if consolePrinters[k] {
+						return false // printed: the value ends here
+					}
+					if diagFormatters[k] {
+						return true
+					}
+					bad = append(bad, k)
+					return false
+				default:
+					bad = append(bad, ir.String(f.Path, app.Fun))
+					return false
+				}
+			})
+		}
+		// a tainted formatter result is harmless only as the argument of a printer; walk from the root so the
+		// enclosing consumer of every tainted application is classified
+		visit(&ir.Seq{Effs: []ir.Term{nf}})
+		stored := false
+		ir.Walk(nf, func(x ir.Term) bool {
+			if as, ok := x.(*ir.AssignT); ok && tainted(as.RHS) {
+				if _, isLocal := as.LHS.(*ir.Local); !isLocal {
+					stored = true
+				}
+			}
+			return true
+		})
+		if stored {
+			bad = append(bad, "a store to a non-local location")
+		}
+		sort.Strings(bad)
+		r.Check(len(bad) == 0, "C05.d", fn.Name, "recovered-value-consumers", pos,
+			"the value of recover() is only compared, formatted and printed to the console",
+			"the recovered diagnostic (its wording may name whichever uncovered case the map enumeration yields first) is handed to "+strings.Join(bad, ", ")+": diagnostic text can reach a file or a later decision, so identical runs can leave different results")
+	}
+	if n == 0 {
+		r.Undecided("C05.d", "-", "recover-sites", "fc", "no function calling recover() found (anchor OnParseError moved?)")
+	}
 }
 
 // checkDetInventory: C05.a and C05.b over typed syntax and resolved callees.
